@@ -44,9 +44,19 @@ def state_check(loader):
 TASKS = [StructTask("frames-of-process", check, note="scalar hints: " + ", ".join(SCALARS)),
          StructTask("no-hidden-module-state", state_check, note="repeatability: no caches / registries written at module level")]
 
+# the function contracts the frame argument rests on (proved for C18 / C10 / C04; discharged here too): the copy constructors give fresh sample storage,
+# TimeSeries.window multiplies IN PLACE (which is why process() must taper copies), detrend / filter rebind to new arrays
+import contracts.C18 as _C18
+import contracts.C10 as _C10
+_WANT = ("hvsrpy.timeseries.TimeSeries.__init__", "hvsrpy.timeseries.TimeSeries.from_timeseries", "hvsrpy.seismic_recording_3c.SeismicRecording3C.from_seismic_recording_3c",
+         "hvsrpy.timeseries.TimeSeries.window", "hvsrpy.timeseries.TimeSeries.detrend", "hvsrpy.timeseries.TimeSeries.butterworth_filter")
+TASKS += [t for t in list(_C18.TASKS) + list(_C10.TASKS) if getattr(t, "label", "").split("[")[0] in _WANT]
+
 META = dict(
     level="other",
-    explanation="frame obligations decided on the AST (may-alias ownership analysis with per-function summaries): nothing reachable from process() writes "
+    explanation="function contracts (shared with C18 / C10): TimeSeries.__init__ / from_timeseries / SeismicRecording3C.from_seismic_recording_3c own fresh sample storage; "
+                "TimeSeries.window writes its own samples in place, detrend / butterworth_filter rebind to new arrays. "
+                "frame obligations decided on the AST (may-alias ownership analysis with per-function summaries): nothing reachable from process() writes "
                 "storage reachable from the recordings / time series / spectra it is given; of `settings` only fft_settings is written; bounded: deep "
                 "snapshots of the recordings around process() for 11 methods, repeated call identical, results unchanged by later edits of recordings and "
                 "settings, interleaved calls in random orders (hidden state), known finding F-15",
